@@ -214,6 +214,94 @@ def matchSeqFrom (pool : Pool) : Cache → List Source → List (Except MatchErr
 /-- the answers of a freshly constructed `Importer` to a request history -/
 def matchSeq (pool : Pool) (ss : List Source) : List (Except MatchError Nat) := matchSeqFrom pool [] ss
 
+/-! ### the match cache as a memo over a key function -/
+
+/-- A memo table: what `Importer.match` remembers from one call to the next, keyed by `key statement`.  forml keys by the
+statement itself (`functools.lru_cache`: hash + `==` of the DSL object, i.e. `key = id`); a cache keyed by anything
+coarser (`repr(statement)`: a table prints as its bare class name) is an instance with a non-injective `key`. -/
+abbrev Memo (κ α : Type) := List (κ × α)
+
+/-- one memoised call of `f`: a hit returns the remembered answer, a miss computes and remembers it (an exception is not
+remembered) -/
+def memoStep {κ ε α : Type} [DecidableEq κ] (key : Source → κ) (f : Source → Except ε α) (c : Memo κ α) (s : Source) :
+    Except ε α × Memo κ α :=
+  match (c.find? (fun p => decide (p.1 = key s))).map (·.2) with
+  | some a => (.ok a, c)
+  | none =>
+    match f s with
+    | .ok a => (.ok a, (key s, a) :: c)
+    | .error e => (.error e, c)
+
+def memoSeqFrom {κ ε α : Type} [DecidableEq κ] (key : Source → κ) (f : Source → Except ε α) :
+    Memo κ α → List Source → List (Except ε α)
+  | _, [] => []
+  | c, s :: ss => (memoStep key f c s).1 :: memoSeqFrom key f (memoStep key f c s).2 ss
+
+/-- the answers of a fresh memoised `f` to a request history -/
+def memoSeq {κ ε α : Type} [DecidableEq κ] (key : Source → κ) (f : Source → Except ε α) (ss : List Source) :
+    List (Except ε α) :=
+  memoSeqFrom key f [] ss
+
+/-- a key as coarse as `repr`: a table is its name (its schema does not show) -/
+def nameKey : Source → String
+  | .table n _ => n
+  | .ref i n => "ref(" ++ nameKey i ++ "," ++ n ++ ")"
+  | .join l r _ _ => "join(" ++ nameKey l ++ "," ++ nameKey r ++ ")"
+  | .set l r _ => "set(" ++ nameKey l ++ "," ++ nameKey r ++ ")"
+  | .query src _ _ _ _ _ _ => "query(" ++ nameKey src ++ ")"
+
+/-! ### pools whose lazily configured members may fail to come up (`Importer.__iter__`, `Slot.instance`) -/
+
+/-- what `Slot.instance` yields: the feed (what it advertises), or the exception `Feed[reference](**params)` raises
+(unknown provider reference, a constructor refusing, missing params); an explicit instance is always a `feed` -/
+inductive Inst where
+  | feed (sources : Sources)
+  | fails (err : String)
+  deriving DecidableEq, Repr, Inhabited
+
+structure FSlot where
+  prio : Prio
+  inst : Inst
+  deriving DecidableEq, Repr, Inhabited
+
+abbrev FPool := List FSlot
+
+/-- the slot as `Importer.__init__` sorts it (the priority is known without instantiating) -/
+def FSlot.slot (f : FSlot) : Slot := ⟨f.prio, match f.inst with | .feed S => S | .fails _ => []⟩
+
+def FSlot.failure (f : FSlot) : Option String :=
+  match f.inst with
+  | .feed _ => none
+  | .fails e => some e
+
+inductive Outcome where
+  | selected (i : Nat)
+  | missing              -- `forml.MissingError`
+  | raised (err : String) -- whatever bringing a feed up raised
+  deriving DecidableEq, Repr, Inhabited
+
+/-- `Importer.match`'s loop `for feed in self` with `__iter__` a generator: the slots are brought up ONE BY ONE in pool
+order, each probed before the next is touched.  Result and the construction indices of the slots that were touched. -/
+def scan (fails : Nat → Option String) : List (Nat × Slot) → Source → Outcome × List Nat
+  | [], _ => (.missing, [])
+  | (i, f) :: rest, s =>
+    match fails i with
+    | some e => (.raised e, [i])
+    | none =>
+      if covers f.sources s then (.selected i, [i])
+      else ((scan fails rest s).1, i :: (scan fails rest s).2)
+
+def FPool.fails (pool : FPool) (i : Nat) : Option String := (pool[i]?).bind FSlot.failure
+
+/-- `Importer.match` on a pool whose members may fail to come up -/
+def matchFault (pool : FPool) (s : Source) : Outcome × List Nat :=
+  scan pool.fails (order (pool.map FSlot.slot)) s
+
+/-- the single-shot answer as the memo sees it (an exception - `MissingError` included - is not remembered) -/
+def Outcome.toExcept : Outcome → Except Outcome Nat
+  | .selected i => .ok i
+  | o => .error o
+
 /-! ### wire format -/
 
 open ForML (Sexp)
@@ -224,6 +312,12 @@ def Prio.ofSexp : Sexp → Option Prio
 
 def Slot.ofSexp : Sexp → Option Slot
   | .list [p, .list srcs] => do pure ⟨← Prio.ofSexp p, ← srcs.mapM Source.ofSexp⟩
+  | _ => none
+
+/-- `(prio (feed (src*)))` | `(prio (fails Class))` -/
+def FSlot.ofSexp : Sexp → Option FSlot
+  | .list [p, .list [.atom "feed", .list srcs]] => do pure ⟨← Prio.ofSexp p, .feed (← srcs.mapM Source.ofSexp)⟩
+  | .list [p, .list [.atom "fails", .atom e]] => do pure ⟨← Prio.ofSexp p, .fails e⟩
   | _ => none
 
 end ForML.Matcher
